@@ -28,6 +28,9 @@ DefsFor(name) ==
     ELSE CASE Menu = "tags"  -> {Def("P", 80, <<>>, ""), Def("D", 2, <<>>, ""), Def("I", 0, <<2>>, "")}
                                  \cup {Def("R", 0, <<>>, t) : t \in TagNames \ {name}}
                                  \cup {Def("N", 0, <<>>, t) : t \in TagNames \ {name}}
+           [] Menu = "subs"  -> {Def("P", 80, <<>>, ""), Def("D", 2, <<>>, "")}
+                                 \cup {Def("R", 0, <<>>, t) : t \in TagNames \ {name}}
+                                 \cup {Def("S", 81, <<>>, t) : t \in TagNames \ {name}}
            [] Menu = "files" -> {Def("P", 80, <<>>, ""), Def("D", 2, <<>>, "")}
            [] Menu = "conv"  -> {Def("P", 80, <<>>, ""), Def("L", 2, <<>>, ""), Def("D", 2, <<>>, "")}
 BadDefsFor(name) ==      \* definitions that make a call invalid
